@@ -471,4 +471,273 @@ theorem only_lastList (cs : List (Bytes × Bytes)) (d : Riff.Riff) (x : Bytes) (
       simp only [lastList, if_neg hc]
       exact ih d h
 
+/-! ### the entries of the `dblk` list -/
+
+/-- what the spec reader records for an entry, from what the linker read for it -/
+def toSlot (pcmd : Bytes) : Carried → Slot
+  | .data addr flag bytes => { addr, flag, want := .data bytes }
+  | .pcm addr hdr _ =>
+    { addr, flag := false, want := .pcm hdr.rate (readAt pcmd (hdr.position + hdr.start) hdr.size), start := hdr.start }
+
+theorem fromBytes_of_len (b : Bytes) (h : 32 ≤ b.length) :
+    ∃ hdr, Wave.Sample.fromBytes b = some hdr ∧ rdLe32 b 0 = some hdr.position ∧ rdLe32 b 4 = some hdr.start ∧
+      rdLe32 b 8 = some hdr.size ∧ rdLe32 b 20 = some hdr.rate := by
+  obtain ⟨v0, h0⟩ := Option.isSome_iff_exists.mp (rdLe32_isSome_of_long b 0 (by omega))
+  obtain ⟨v4, h4⟩ := Option.isSome_iff_exists.mp (rdLe32_isSome_of_long b 4 (by omega))
+  obtain ⟨v8, h8⟩ := Option.isSome_iff_exists.mp (rdLe32_isSome_of_long b 8 (by omega))
+  obtain ⟨v12, h12⟩ := Option.isSome_iff_exists.mp (rdLe32_isSome_of_long b 12 (by omega))
+  obtain ⟨v16, h16⟩ := Option.isSome_iff_exists.mp (rdLe32_isSome_of_long b 16 (by omega))
+  obtain ⟨v20, h20⟩ := Option.isSome_iff_exists.mp (rdLe32_isSome_of_long b 20 (by omega))
+  obtain ⟨v24, h24⟩ := Option.isSome_iff_exists.mp (rdLe32_isSome_of_long b 24 (by omega))
+  obtain ⟨v28, h28⟩ := Option.isSome_iff_exists.mp (rdLe32_isSome_of_long b 28 (by omega))
+  refine ⟨⟨v0, v4, v8, v12, v16, v20, v24, v28⟩, ?_, h0, h4, h8, h20⟩
+  simp [Wave.Sample.fromBytes, h0, h4, h8, h12, h16, h20, h24, h28]
+
+theorem slotAddr_small (sdata id : Nat) (hid : id < 4294967296) (hb : sdata + 2 * (id % 2147483648) + 2 ≤ 65536) :
+    slotAddr sdata id = sdata + 2 * (id % 2147483648) := by
+  unfold slotAddr Wave.u32
+  omega
+
+theorem carried_of_slot (sdata : Nat) (pcmd : Bytes) (e : Bytes × Bytes) (h4 : e.1.length = 4) (sl : Slot)
+    (h : slotOf sdata pcmd e = some sl) (hb : sl.addr + 2 ≤ 65536) :
+    ∃ cr, carriedOf sdata pcmd (toRiff e) = some cr ∧ toSlot pcmd cr = sl := by
+  have tglob := type_iff e h4 (cc "glob") (by decide) Tables.link_cc_glob (by decide)
+  have tpcmh := type_iff e h4 (cc "pcmh") (by decide) Tables.link_cc_pcmh (by decide)
+  unfold slotOf at h
+  split at h
+  · cases h
+  · rename_i id hid
+    rw [nat32le_eq] at hid
+    have hidlt := (rdLe32_lt _ _ _ hid).1
+    have hdata : (toRiff e).data = e.2 := rfl
+    simp only at h
+    split at h
+    · rename_i hg
+      have hg' : e.1 = cc "glob" := by simpa using hg
+      simp only [Option.some.injEq] at h
+      subst h
+      simp only at hb
+      refine ⟨.data (slotAddr sdata id) (decide (id ≥ 2147483648)) (e.2.drop 4), ?_, ?_⟩
+      · unfold carriedOf
+        rw [if_pos (tglob.mpr hg'), hdata, hid]
+      · simp only [toSlot, slotAddr_small sdata id hidlt hb]
+    · rename_i hg
+      have hg' : ¬ e.1 = cc "glob" := by simpa using hg
+      split at h
+      · rename_i hp
+        have hp' : e.1 = cc "pcmh" := by simpa using hp
+        split at h
+        · cases h
+        · rename_i hlen
+          have hlen' : e.2.length = 36 := by simpa using hlen
+          obtain ⟨hdr, f0, f1, f2, f3, f4⟩ := fromBytes_of_len (e.2.drop 4) (by simp only [List.length_drop]; omega)
+          rw [rdLe32_drop] at f1 f2 f3 f4
+          split at h
+          · rename_i position start size rate e1 e2 e3 e4
+            rw [nat32le_eq] at e1 e2 e3 e4
+            rw [e1] at f1; rw [e2] at f2; rw [e3] at f3; rw [e4] at f4
+            simp only [Option.some.injEq] at f1 f2 f3 f4
+            split at h
+            · cases h
+            · simp only [Option.some.injEq] at h
+              subst h
+              simp only at hb
+              refine ⟨.pcm (slotAddr sdata id) hdr (readAt pcmd hdr.position hdr.size), ?_, ?_⟩
+              · unfold carriedOf
+                rw [if_neg (mt tglob.mp hg'), if_pos (tpcmh.mpr hp'), hdata, hid, f0]
+              · simp only [toSlot, slotAddr_small sdata id hidlt hb, ← f1, ← f2, ← f3, ← f4]
+          · cases h
+      · cases h
+
+theorem carried_of_slots (sdata : Nat) (pcmd : Bytes) (es : List (Bytes × Bytes)) (slots : List Slot)
+    (h4 : ∀ e ∈ es, e.1.length = 4) (h : allSome (es.map (slotOf sdata pcmd)) = some slots)
+    (hb : ∀ s ∈ slots, s.addr + 2 ≤ 65536) :
+    ((es.map toRiff).filterMap (carriedOf sdata pcmd)).map (toSlot pcmd) = slots := by
+  induction es generalizing slots with
+  | nil => simp only [List.map_nil, allSome, Option.some.injEq] at h; subst h; rfl
+  | cons e es ih =>
+    simp only [List.map_cons] at h
+    cases hs : slotOf sdata pcmd e with
+    | none => rw [hs] at h; simp [allSome] at h
+    | some sl =>
+      rw [hs] at h
+      simp only [allSome] at h
+      cases hr : allSome (es.map (slotOf sdata pcmd)) with
+      | none => rw [hr] at h; cases h
+      | some rest =>
+        rw [hr] at h
+        simp only [Option.map_some, Option.some.injEq] at h
+        subst h
+        obtain ⟨cr, c1, c2⟩ := carried_of_slot sdata pcmd e (h4 e (List.mem_cons_self ..)) sl hs (hb sl (List.mem_cons_self ..))
+        have := ih rest (fun e he => h4 e (List.mem_cons_of_mem _ he)) hr (fun s hs => hb s (List.mem_cons_of_mem _ hs))
+        simp only [List.map_cons, List.filterMap_cons, c1, c2, this]
+
+/-! ### the whole file -/
+
+theorem nat16_getD (seq : Bytes) (sdata : Nat) (h : nat16 seq 0 = some sdata) :
+    sdata = (seq.getD 0 0).toNat * 256 + (seq.getD 1 0).toNat ∧ 2 ≤ seq.length ∧ sdata < 65536 := by
+  unfold nat16 readAt at h
+  match seq with
+  | [] => simp at h
+  | [_] => simp at h
+  | x :: y :: r =>
+    simp only [List.drop_zero, List.take_succ_cons, List.take_zero, Option.some.injEq] at h
+    have := x.toNat_lt; have := y.toNat_lt
+    refine ⟨by simp [← h], by simp, by omega⟩
+
+theorem checkVersion_ok (major minor : Nat)
+    (h : ¬(major ≠ Tables.MDSDRV_SEQ_VERSION_MAJOR ∨ minor < Tables.MDSDRV_MIN_SEQ_VERSION_MINOR ∨ minor > Tables.MDSDRV_SEQ_VERSION_MINOR)) :
+    checkVersion major minor = true := by
+  simp only [Tables.MDSDRV_SEQ_VERSION_MAJOR, Tables.MDSDRV_MIN_SEQ_VERSION_MINOR, Tables.MDSDRV_SEQ_VERSION_MINOR] at h
+  have h1 : major = 0 := by omega
+  subst h1
+  simp only [checkVersion, Tables.MDSDRV_SEQ_VERSION_MAJOR, Tables.MDSDRV_MIN_SEQ_VERSION_MINOR, Tables.MDSDRV_SEQ_VERSION_MINOR,
+    Tables.MDSDRV_MIN_SEQ_VERSION_MAJOR]
+  simp
+  omega
+
+theorem readSong_build (f : Bytes) (size : Nat) (cs es : List (Bytes × Bytes)) (ver grp seq lst pcmd : Bytes) (fuel1 fuel2 : Nat)
+    (h1 : f.take 4 = cc "RIFF") (h2 : readAt f 8 4 = cc "MDS0") (hsize : rdLe32 f 4 = some size)
+    (hlen : size + size % 2 + 8 = f.length) (hs4 : 4 ≤ size)
+    (hcs : chunks fuel1 (readAt f 12 (size - 4)) = some cs)
+    (hver : only cs (cc "ver ") = some ver) (hgrp : only cs (cc "grp ") = some grp) (hseq : only cs (cc "seq ") = some seq)
+    (hlst : only cs (cc "LIST") = some lst) (hpcmd : only cs (cc "pcmd") = some pcmd)
+    (hvl : ver.length = 2) (hdb : lst.take 4 = cc "dblk")
+    (hversion : ¬((ver.getD 0 0).toNat ≠ Tables.MDSDRV_SEQ_VERSION_MAJOR ∨ (ver.getD 1 0).toNat < Tables.MDSDRV_MIN_SEQ_VERSION_MINOR ∨
+        (ver.getD 1 0).toNat > Tables.MDSDRV_SEQ_VERSION_MINOR))
+    (hseq2 : 2 ≤ seq.length) (hes : chunks fuel2 (lst.drop 4) = some es) :
+    readSong f = some { group := grp, seq := seq, pcmd := pcmd, chunks := es.map toRiff } := by
+  obtain ⟨D, hD⟩ : ∃ D, D = (f.drop 8).take size := ⟨_, rfl⟩
+  have hDlen : D.length = size := by rw [hD]; simp only [List.length_take, List.length_drop]; omega
+  have hb0 : rdBe32 f 0 = some Riff.TYPE_RIFF := by
+    rw [rdBe32_take4 f (by omega), h1]; exact congrArg some (by decide)
+  have hofb : Riff.ofBytes f = .ok { type := Riff.TYPE_RIFF, data := D, position := Riff.rewindPos Riff.TYPE_RIFF } := by
+    unfold Riff.ofBytes
+    rw [if_neg (by omega), hb0, hsize]
+    simp only
+    rw [if_neg (by omega), hD]
+  have hpos : Riff.rewindPos Riff.TYPE_RIFF = 4 := by decide
+  have hD4 : D.take 4 = cc "MDS0" := by
+    rw [hD, List.take_take, Nat.min_eq_left hs4]; exact h2
+  have hid : Riff.getId { type := Riff.TYPE_RIFF, data := D, position := Riff.rewindPos Riff.TYPE_RIFF } = .ok Tables.link_cc_MDS0 := by
+    unfold Riff.getId
+    simp only [show Riff.isList Riff.TYPE_RIFF = true by decide, if_true]
+    rw [rdBe32_take4 D (by omega), hD4]
+    rfl
+  have hDd : D.drop 4 = readAt f 12 (size - 4) := by
+    rw [hD, List.drop_take, List.drop_drop]; rfl
+  obtain ⟨k1, k2⟩ := chunks_len _ _ _ hcs
+  have hkids : kids (D.length + 1) { type := Riff.TYPE_RIFF, data := D, position := Riff.rewindPos Riff.TYPE_RIFF } = (cs.map toRiff, none) := by
+    have := kids_chunks fuel1 (D.drop 4) cs (by rw [hDd]; exact hcs) Riff.TYPE_RIFF (by decide) (D.take 4) 4 (D.length + 1)
+      (by simp only [List.length_take]; omega) (Or.inl (by simp only [List.length_take]; omega))
+      (by rw [← hDd] at k1; simp only [List.length_drop] at k1; omega)
+    rw [List.take_append_drop] at this
+    rw [hpos]; exact this
+  have h4c : ∀ c ∈ cs, c.1.length = 4 := fun c hc => (k2 c hc).1
+  have hlist : ∀ c ∈ cs, c.1 = cc "LIST" → c.2.take 4 = cc "dblk" := by
+    intro c hc hn
+    rw [only_unique cs _ _ hlst c hc hn]; exact hdb
+  obtain ⟨p, hp0, hp1, hp2, hp3, hp4, hp5⟩ := foldTop_spec cs {} h4c hlist
+  rw [only_lastOr cs _ _ _ hseq] at hp1
+  rw [only_lastOr cs _ _ _ hpcmd] at hp2
+  rw [only_lastOr cs _ _ _ hver] at hp3
+  rw [only_lastOr cs _ _ _ hgrp] at hp4
+  rw [only_lastList cs _ _ hlst] at hp5
+  have hwalk : walkTop (D.length + 1) { type := Riff.TYPE_RIFF, data := D, position := Riff.rewindPos Riff.TYPE_RIFF } {} = .ok p := by
+    rw [walkTop_fold, hkids]; exact hp0
+  have hdt : p.dblk.type = Riff.TYPE_LIST := by
+    rw [hp5]; show typeOf4 (cc "LIST") = Riff.TYPE_LIST; decide
+  have hdd : p.dblk.data = lst := by rw [hp5]; rfl
+  have hl4 : 4 ≤ lst.length := by
+    have : (lst.take 4).length = 4 := by rw [hdb]; decide
+    simp only [List.length_take] at this; omega
+  obtain ⟨k3, _⟩ := chunks_len _ _ _ hes
+  have hkids2 : kids (p.dblk.data.length + 1) { p.dblk with position := Riff.rewindPos p.dblk.type } = (es.map toRiff, none) := by
+    have := kids_chunks fuel2 (lst.drop 4) es hes Riff.TYPE_LIST (by decide) (lst.take 4) 4 (lst.length + 1)
+      (by simp only [List.length_take]; omega) (Or.inl (by simp only [List.length_take]; omega))
+      (by simp only [List.length_drop] at k3; omega)
+    rw [List.take_append_drop] at this
+    rw [hdd, hdt, show Riff.rewindPos Riff.TYPE_LIST = 4 by decide]
+    have e : ({ p.dblk with position := 4 } : Riff.Riff) = { type := Riff.TYPE_LIST, data := lst, position := 4 } := by
+      rw [← hdt, ← hdd]
+    rw [e]; exact this
+  unfold readSong
+  rw [hofb]
+  simp only [ne_eq, not_true_eq_false, if_false, hid, hwalk]
+  rw [if_neg (by rw [hp3, hp1, hdt, hvl]; omega)]
+  rw [hp3, checkVersion_ok _ _ hversion]
+  simp only [Bool.not_true, Bool.false_eq_true, if_false, hkids2, hp4, hp1, hp2]
+
+theorem readSong_of_parseMds (f : Bytes) (s : SongIn) (h : parseMds f = some s) :
+    ∃ rd, readSong f = some rd ∧ rd.seq = s.seq ∧ rd.group = s.group ∧ rd.carried.map (toSlot rd.pcmd) = s.slots ∧
+      (∀ sl ∈ s.slots, 2 ≤ sl.addr ∧ sl.addr + 2 ≤ s.seq.length) ∧ disjointSlots s.slots = true ∧ s.seq.length ≤ 65536 := by
+  unfold parseMds at h
+  split at h
+  · cases h
+  rename_i hhead
+  split at h
+  · cases h
+  rename_i size hsize
+  split at h
+  · cases h
+  rename_i hsz
+  split at h
+  · cases h
+  rename_i cs hcs
+  split at h
+  · cases h
+  rename_i hlen5
+  split at h
+  · rename_i ver grp seq lst pcmd hver hgrp hseq hlst hpcmd
+    split at h
+    · cases h
+    rename_i hvl
+    simp only at h
+    split at h
+    · cases h
+    rename_i hversion
+    split at h
+    · rename_i sdata es hsdata hes
+      split at h
+      · cases h
+      · rename_i slots hslots
+        split at h
+        · rename_i hfinal
+          simp only [Option.some.injEq] at h
+          subst h
+          simp only [Bool.and_eq_true, decide_eq_true_eq, List.all_eq_true] at hfinal
+          obtain ⟨⟨hall, hdisj⟩, hseqlen⟩ := hfinal
+          rw [nat32le_eq] at hsize
+          have hh1 : f.take 4 = cc "RIFF" := by
+            rcases Decidable.em (f.take 4 = cc "RIFF") with e | e
+            · exact e
+            · exact absurd (Or.inl e) hhead
+          have hh2 : readAt f 8 4 = cc "MDS0" := by
+            rcases Decidable.em (readAt f 8 4 = cc "MDS0") with e | e
+            · exact e
+            · exact absurd (Or.inr e) hhead
+          have hvl1 : ver.length = 2 := by
+            rcases Decidable.em (ver.length = 2) with e | e
+            · exact e
+            · exact absurd (Or.inl e) hvl
+          have hdb : lst.take 4 = cc "dblk" := by
+            rcases Decidable.em (lst.take 4 = cc "dblk") with e | e
+            · exact e
+            · exact absurd (Or.inr e) hvl
+          obtain ⟨hsd, hseq2, hsdlt⟩ := nat16_getD seq sdata hsdata
+          have hrd := readSong_build f size cs es ver grp seq lst pcmd _ _ hh1 hh2 hsize (by omega) (by omega) hcs
+            hver hgrp hseq hlst hpcmd hvl1 hdb hversion hseq2 hes
+          obtain ⟨_, k2⟩ := chunks_len _ _ _ hes
+          have hall' : ∀ sl ∈ slots, 2 ≤ sl.addr ∧ sl.addr + 2 ≤ seq.length := by
+            intro sl hsl
+            exact hall sl hsl
+          refine ⟨_, hrd, rfl, rfl, ?_, hall', hdisj, hseqlen⟩
+          have hcar := carried_of_slots sdata pcmd es slots (fun e he => (k2 e he).1) hslots
+            (fun sl hsl => by have := hall' sl hsl; omega)
+          simp only [SongRead.carried, SongRead.sdata, ← hsd]
+          exact hcar
+        · cases h
+    · cases h
+  · cases h
+
 end Ctrmml.Linker
